@@ -388,3 +388,7 @@ _quick("C15", "C15_shiftover", "a value of 1..3 symbolic bytes (with or without 
 _quick("C06", "C06_msunlimited", "a hold with the unlimited-expiry flag combined with the millisecond flag, the minute flag or neither and Expried 500 / 3000 / 7000 / 0xffff; the clock runs Expried ms + 12 s through the millisecond slot sweepers and the second wheel: no EXPRIED, the hold is still there and its unlock is accepted (symbolic executor only)", ["-witness", "0"], native=False)
 
 _quick("C06", "C06_msupdate", "a hold with a millisecond expiry E in {1500, 2999} ms, updated at E/2 ms (update flag, Count changed) with the same millisecond terms or with a seconds expiry of 10 s; the sweeper of the original slot runs at E ms, later sweepers and per-second sweeps follow: exactly one EXPRIED in [update + E', update + E' + 2 s] (symbolic executor only)", ["-witness", "0"], reach=["updated"], native=False)
+
+_quick("C08", "C08_valappend", "a log of two valued records (symbolic record bytes) whose value file is cut at every byte of the second value frame (0..8 of its 9 bytes on disk); first restart, the append file reopened for writing, one more valued record persisted and flushed, second restart: the first and the new record with their own values, the torn record not brought back from partial bytes", ["-witness", "1"], reach=["reopened"])
+
+_quick("C20", "C20_restructure", "LockQueue, LockCommandQueue and LockManagerQueue with geometry (1,8,2) and (4,8,2): filled with 7 / 15 / 30 elements and the tail taken back by 0 / 1 / 3 PopRight, or filled with 40, drained, Reset and refilled with 3 / 8 / 14; all but 0..2 elements popped; Restructuring; 5 / 20 / 45 more pushes across node boundaries; drain: every element and length as a plain deque's", ["-witness", "40"])
